@@ -65,7 +65,7 @@ CLAIMED = {
      text="Bounded-exhaustive: all multisets of size 0..2 (thorough 3) over 40 short byte strings plus generated sets up to 5000 keys, for every bits_per_key 1..=64: every member may-match; for every enumerated table layout every user key of every data block may-match the filter consulted with that block's offset and every stored (key, seq) is found by get."),
   "C15": dict(level="fault_enumeration", design="§5 C15", note=CRASH_NOTE,
      technique="exhaustive single-byte corruption enumeration over every offset of every file of small database images, each opened and read completely with the real DB; error-or-correct oracle",
-     text="Eight small images (tables on three levels, WAL only, after a multi-output compaction, multi-block WAL record, fresh-manifest snapshot, six levels with many manifest edits, one-entry tables with a permissive filter, tombstones + rotation): every offset of every file x {each bit flipped, 0x00 (thorough: 0xff, +1)} and table truncations; open, all gets, forward and backward scan must each be an error or correct (WAL: damaged records may be skipped)."),
+     text="Eight small images (tables on three levels, WAL only, after a multi-output compaction, multi-block WAL record, fresh-manifest snapshot, six levels with many manifest edits, one-entry tables with a permissive filter, tombstones + rotation): every offset of every file x {each bit flipped, 0x00, 0xff, +1} and table truncations; open, all gets, forward and backward scan must each be an error or correct (WAL: damaged records may be skipped)."),
   "C17": dict(level="model_checking", design="§5 C17", note=SCHED_NOTE,
      technique="exhaustive preemption/deviation-bounded schedule DFS of open/close/destroy programs on the real TmpFileSystem (flock), every filesystem call a switch point",
      text="All schedules within the bound of 13 programs of 2-3 threads (open+hold, open+put+close, destroy_database) from initial states absent/closed/open: never two live handles; while open elsewhere every open and destroy fails and the owner is undisturbed; exactly one of racing holders succeeds."),
